@@ -160,6 +160,8 @@ func checkCase(c Case) (out evid.Outcome) {
 		f.Use(renderer)
 		f.Any("/r", hs...)
 		f.Get("/inner", innerH)
+		// the not-found chain runs after the application middleware as well
+		f.NotFound(func(r flamego.Render) { r.PlainText(404, "nothing-here") })
 	case "group":
 		f.Group("/g", func() {
 			f.Any("/r", hs...)
@@ -168,6 +170,17 @@ func checkCase(c Case) (out evid.Outcome) {
 	case "route":
 		f.Any("/r", append([]flamego.Handler{renderer}, hs...)...)
 		f.Get("/inner", renderer, innerH)
+	}
+	if c.At == "use" {
+		nf := rt.NewSpy()
+		var nfEscaped interface{}
+		func() {
+			defer func() { nfEscaped = recover() }()
+			f.ServeHTTP(nf, rt.NewRequest("GET", "/no/such/route", nil))
+		}()
+		if nfEscaped != nil || nf.Status() != 404 || string(nf.Body) != "nothing-here" {
+			return evid.Fail("render-unavailable", "a not-found handler behind the Renderer middleware could not render: status %v body %q panic %v; %s", nf.Codes, nf.Body, nfEscaped, js(c))
+		}
 	}
 	spy := rt.NewSpy()
 	var escaped interface{}
@@ -235,14 +248,15 @@ func checkCase(c Case) (out evid.Outcome) {
 	if perr != nil || gotType != wantType || !strings.EqualFold(gotParams["charset"], wantParams["charset"]) {
 		return evid.Fail("content-type", "Content-Type %q, want %q; %s", spy.H.Get("Content-Type"), wantCT, desc)
 	}
-	if c.Method == "HEAD" {
-		wantBody = nil
-	}
+	// who drops the body of a HEAD response (the response writer, as flamego's
+	// does, or the server underneath) is not this property's business: a HEAD
+	// response without body bytes is fine, one with bytes is checked like GET
+	head := c.Method == "HEAD" && len(spy.Body) == 0
 	if c.Kind == "json" || c.Kind == "jsonstruct" {
 		// "via the standard encoder with the configured indentation": the body
 		// must decode back (below) and be laid out with that indentation; how
 		// characters are escaped and whether a newline ends it is not fixed
-		if c.Method != "HEAD" {
+		if !head {
 			body := bytes.TrimSuffix(spy.Body, []byte("\n"))
 			var compact, laid bytes.Buffer
 			if err := json.Compact(&compact, body); err != nil {
@@ -256,29 +270,36 @@ func checkCase(c Case) (out evid.Outcome) {
 			if !bytes.Equal(laid.Bytes(), body) {
 				return evid.Fail("json-indent", "the JSON body %q is not laid out with indentation %q (expected layout %q); %s", clip(spy.Body), jsonIndent, clip(laid.Bytes()), desc)
 			}
-		} else if len(spy.Body) != 0 {
-			return evid.Fail("body", "HEAD request got a body %q; %s", clip(spy.Body), desc)
 		}
 	} else if c.Kind == "xml" {
-		// decoded below; here only the layout: indented iff an indentation is configured
-		if c.Method == "HEAD" {
-			if len(spy.Body) != 0 {
-				return evid.Fail("body", "HEAD request got a body %q; %s", clip(spy.Body), desc)
-			}
-		} else {
-			indented := bytes.Contains(spy.Body, []byte("\n"+xmlIndent+"<")) && xmlIndent != ""
+		// decoded below; here only the layout: indented iff an indentation is
+		// configured. An XML declaration in front and a newline at the very end
+		// are neither (JSON bodies end with a newline too).
+		if !head {
+			doc := xmlDocument(spy.Body)
+			indented := bytes.Contains(doc, []byte("\n"+xmlIndent+"<")) && xmlIndent != ""
 			if xmlIndent != "" && !indented {
 				return evid.Fail("xml-indent", "the XML body %q is not indented with %q; %s", clip(spy.Body), xmlIndent, desc)
 			}
-			if xmlIndent == "" && bytes.Contains(spy.Body, []byte(">\n")) {
+			if xmlIndent == "" && bytes.Contains(doc, []byte(">\n")) {
 				return evid.Fail("xml-indent", "the XML body %q is indented although no indentation is configured; %s", clip(spy.Body), desc)
 			}
 		}
-	} else if !bytes.Equal(spy.Body, wantBody) {
+	} else if c.Kind == "xmlempty" {
+		if len(xmlDocument(spy.Body)) != 0 {
+			return evid.Fail("body", "body %q for a value whose XML encoding is empty; %s", clip(spy.Body), desc)
+		}
+	} else if !head && !bytes.Equal(spy.Body, wantBody) {
 		return evid.Fail("body", "body %q, want %q; %s", clip(spy.Body), clip(wantBody), desc)
 	}
+	// a Content-Length announced by the renderer must be the length of the body
+	if cl := spy.H.Get("Content-Length"); cl != "" && !head {
+		if n, err := strconv.Atoi(cl); err != nil || n != len(spy.Body) {
+			return evid.Fail("content-length", "Content-Length %q but the body has %d bytes; %s", cl, len(spy.Body), desc)
+		}
+	}
 	// decodes back to the value
-	if c.Method != "HEAD" {
+	if !head {
 		switch c.Kind {
 		case "json":
 			var back interface{}
@@ -495,4 +516,15 @@ func TestReplay(t *testing.T) {
 			return checkCase(c)
 		},
 	})
+}
+
+// xmlDocument strips an optional XML declaration and surrounding white space.
+func xmlDocument(b []byte) []byte {
+	b = bytes.TrimSpace(b)
+	if bytes.HasPrefix(b, []byte("<?xml")) {
+		if i := bytes.Index(b, []byte("?>")); i >= 0 {
+			b = bytes.TrimSpace(b[i+2:])
+		}
+	}
+	return b
 }
